@@ -199,3 +199,24 @@ func init() {
 		},
 	})
 }
+
+func init() {
+	register(&Property{
+		ID: "C05", Title: "Call gating and token currency",
+		Explanation: "tbd",
+		Rules: []Rule{
+			{Name: "DOM/gates", Min: 5, Run: ruleGates, Doc: "call forwarded only after the matching grant, with the checked action"},
+			{Name: "TABLE/access", Min: 2, Run: ruleAccessTables, Doc: "decision list of CanCall"},
+			{Name: "DOM/invalidate", Min: 2, Run: ruleInvalidate, Doc: "verdict invalidated on every trigger"},
+			{Name: "PROV/token-cid", Min: 10, Run: ruleTokenCID, Doc: "requests carry the connection's own id and current token"},
+		},
+	})
+	register(&Property{
+		ID: "C10", Title: "Connection isolation",
+		Explanation: "tbd",
+		Rules: []Rule{
+			{Name: "PROV/token-cid", Min: 10, Run: ruleTokenCID, Doc: "requests carry the connection's own id and current token"},
+			{Name: "PROV/cid-taint", Min: 15, Run: ruleCIDTaint, Doc: "expanded names never reach client-facing sinks"},
+		},
+	})
+}
